@@ -98,6 +98,9 @@ def gen_knobs(rng, prop, profile):
             keys[2] = dict(a, comment="")  # ... and the bare resource itself
         seen = set()
         keys = [k for k in keys if (k["scheme"], k["res"], k["comment"]) not in seen and not seen.add((k["scheme"], k["res"], k["comment"]))]
+    for kd in keys:
+        if kd["pp"] and kd["val"] and rng.random() < 0.5:
+            kd["rev"] = True  # this uri is written with its two directives in the other order
     second = rng.random() < 0.35
     if rng.random() < 0.25:
         # some objects live in a second store that shares the sim:// scheme (resource chosen by valid_uri)
